@@ -6,7 +6,7 @@
    the implementation at the same budgets. *)
 From Coq Require Import ZArith List Bool Znumtheory.
 Require Import Model.Base Model.Field Model.Ir Model.Propagate Model.Justify.
-Require Import Spec.FieldSpec Spec.ValueSem Proofs.ValueProofs Proofs.CutProofs.
+Require Import Spec.FieldSpec Spec.ValueSem Proofs.ValueProofs Proofs.CutProofs Proofs.CutInvariant.
 Import ListNotations.
 Local Open Scope Z_scope.
 
@@ -44,10 +44,29 @@ Theorem C20_degrees_fixpoint_stable : forall k env bs bs' env',
 Proof. exact degrees_passes_fix. Qed.
 Print Assumptions C20_degrees_fixpoint_stable.
 
-(* The statement the proof does not yet reach (kept visible, reported as open):
-   the mirror's output is validated at EVERY budget, for every graph. The check
-   establishes it per explored definition by running the validator on the
-   implementation's output at budgets 0, 1, 2, 3, 5, fixpoint. *)
-Definition C20_mirror_validated_at_every_budget_full_statement : Prop :=
-  forall k p c bs env, clean_cfg c = true ->
-    values_passes k p [] (c_blocks c) = Ok (bs, env) -> vjust_cfg p (set_blocks c bs) = true.
+(* THE UNIVERSAL STATEMENT: for every graph that carries no claim yet and in
+   which a local has a single defining assignment (SSA, C14), and for EVERY
+   number of passes k, whatever Model.Propagate has attached after k passes is
+   accepted by the validator - hence true, by C20_any_cut_validated_claims_true.
+   The proof shows that each single statement visit preserves "every claim is
+   justified by the environment and every environment binding is the claim of
+   the defining assignment", so it also covers every prefix of a pass. *)
+Theorem C20_mirror_validated_at_every_budget : forall k p c bs env,
+  clean_cfg c = true -> ldefs_unique (all_stmts (c_blocks c)) = true ->
+  values_passes k p [] (c_blocks c) = Ok (bs, env) ->
+  vjust_cfg p (set_blocks c bs) = true.
+Proof. exact mirror_validated_at_every_budget. Qed.
+Print Assumptions C20_mirror_validated_at_every_budget.
+
+(* one statement visit (the unit a cut inside a pass can separate) preserves the invariant *)
+Theorem C20_single_visit_preserves_invariant : forall p A s B env b s' env',
+  uniq (map sigq (A ++ s :: B)) ->
+  Inv p (A ++ s :: B) env -> pv_stmt p env s = Ok (b, s', env') ->
+  Inv p (A ++ s' :: B) env' /\ map sigq (A ++ s' :: B) = map sigq (A ++ s :: B) /\ env_le env env'.
+Proof. exact step_inv. Qed.
+Print Assumptions C20_single_visit_preserves_invariant.
+
+Theorem C20_invariant_implies_validated : forall p ss env,
+  Inv p ss env -> forallb (vjust_stmt ss p) ss = true.
+Proof. exact Inv_validated. Qed.
+Print Assumptions C20_invariant_implies_validated.
